@@ -125,7 +125,8 @@ type PQIndex struct {
 //   - dim: Vector dimensionality (must be divisible by M)
 //   - distanceKind: Distance metric
 //   - M: Number of subquantizers (subspaces). Must divide dim evenly.
-//   - Nbits: Bits per PQ code, determines K=2^Nbits centroids per subspace
+//   - Nbits: Bits per PQ code, determines K=2^Nbits centroids per subspace.
+//     Must be in [1,8]: each code is stored in a single byte.
 //
 // Returns:
 //   - *PQIndex: New untrained PQ index
@@ -149,8 +150,9 @@ func NewPQIndex(dim int, distanceKind DistanceKind, M int, Nbits int) (*PQIndex,
 	}
 
 	// Validate Nbits
-	if Nbits <= 0 || Nbits > 16 {
-		return nil, fmt.Errorf("parameter Nbits must be in [1,16]")
+	// Codes are stored as one uint8 per subspace, so centroid IDs (< 2^Nbits) must fit in a byte
+	if Nbits <= 0 || Nbits > 8 {
+		return nil, fmt.Errorf("parameter Nbits must be in [1,8]: PQ codes are stored as one byte per subspace")
 	}
 
 	// Create distance calculator
